@@ -41,4 +41,46 @@ def DT.clear (t : DT) : DT := { uf := UF.reset t.uf, displaced := [], lookup := 
 /-- the pinned `clear`, which left `lookup_table` behind (defect 7) -/
 def DT.clearPinned (t : DT) : DT := { uf := UF.reset t.uf, displaced := [], lookup := t.lookup }
 
+/-! ### timestamp-range subsets (`fast_subset` on column 2, `timestamp_bounds`) -/
+
+/-- `timestamp_bounds`: rows are appended with non-decreasing timestamps, so the rows with timestamp
+`val` form one run; `ok (lo, hi)` is that run (found by binary search and widened in the code),
+`error b` the insertion point when there is none -/
+def tsBounds (d : List (Nat × Nat)) (val : Nat) : Except Nat (Nat × Nat) :=
+  let lo := (d.takeWhile (fun r => r.2 < val)).length
+  let hi := lo + ((d.dropWhile (fun r => r.2 < val)).takeWhile (fun r => r.2 == val)).length
+  if lo < hi then .ok (lo, hi) else .error lo
+
+inductive TsC where
+  | lt | le | gt | ge | eq
+deriving DecidableEq, Repr
+
+def TsC.sat (k : TsC) (val ts : Nat) : Bool :=
+  match k with
+  | .lt => ts < val | .le => ts ≤ val | .gt => val < ts | .ge => val ≤ ts | .eq => ts == val
+
+/-- `fast_subset` for `<k> ts val`: a dense row range `[start, end)`, or none (an `=` on a
+timestamp that does not occur is answered by the generic path) -/
+def tsRange (d : List (Nat × Nat)) (k : TsC) (val : Nat) : Option (Nat × Nat) :=
+  match tsBounds d val, k with
+  | .ok (lo, _), .lt => some (0, lo)
+  | .error b, .lt => some (0, b)
+  | .ok (_, hi), .gt => some (hi, d.length)
+  | .error b, .gt => some (b, d.length)
+  | .ok (_, hi), .le => some (0, hi)
+  | .error b, .le => some (0, b)
+  | .ok (lo, _), .ge => some (lo, d.length)
+  | .error b, .ge => some (b, d.length)
+  | .ok (lo, hi), .eq => some (lo, hi)
+  | .error _, .eq => none
+
+/-- the rows of a dense range -/
+def slice (d : List (Nat × Nat)) (r : Nat × Nat) : List (Nat × Nat) := (d.drop r.1).take (r.2 - r.1)
+
+/-- `insert_impl` asserts "must insert rows with increasing timestamps" -/
+def tsOk (d : List (Nat × Nat)) (ts : Nat) : Bool :=
+  match d.getLast? with
+  | some r => r.2 ≤ ts
+  | none => true
+
 end EgglogVerif.Displaced
